@@ -275,13 +275,17 @@ def gen_prelude(rng):
     pre = {'boards': boards, 'script': script, 'seats': seats,
            'teams': {'NS': gen_team_name(rng), 'EW': gen_team_name(rng)}, 'abort': None}
     r = rng.random()
-    if r < 0.35:
+    if r < 0.2:
+        # the table never fills: only one to three players turn up and the operator gives up
+        k = rng.randint(1, 3)
+        pre['abort'] = {'kind': 'partial', 'seats': sorted(rng.sample(rb.SEATS, k))}
+    elif r < 0.45:
         b = rng.randrange(nb)
         phase = rng.choice(('deal', 'call'))
         pre['abort'] = {'kind': 'leave', 'seat': rng.choice(rb.SEATS), 'board': b, 'phase': phase,
                         'index': 0 if phase == 'deal' else
                         rng.randrange(max(1, len(script[b]['calls'])))}
-    elif r < 0.6:
+    elif r < 0.65:
         a = rb.Auction(boards[0]['dealer'])
         i = rng.randrange(max(1, len(script[0]['calls'])))
         for c in script[0]['calls'][:i]:
